@@ -156,9 +156,11 @@ class Fmt:
 
 
 def delim_signature_writer(toks):
-    """(magic, delimiter, structure) of a delimiter-format writer"""
+    """(magic, delimiter, structure) of a delimiter-format writer; a separator literal that differs
+    from the delimiter makes the delimiter a tuple (so that it cannot match the reader's)"""
     magic = None
     delim = None
+    seps = set()
 
     def struct(ts):
         nonlocal magic, delim
@@ -170,6 +172,8 @@ def delim_signature_writer(toks):
                     magic, delim = v[:-1], v[-1]
                 elif len(v) == 1:
                     delim = delim or v
+                    if v != delim:
+                        seps.add(v)
                 elif len(v) > 1:
                     # composite literal such as "|" followed by another magic: count inner delimiters
                     pass
@@ -181,12 +185,15 @@ def delim_signature_writer(toks):
                     out.append(('loop', tuple(inner)))
         return out
     st = struct(toks)
+    if seps:
+        delim = (delim,) + tuple(sorted(seps))
     return magic, delim, tuple(st)
 
 
 def delim_signature_reader(toks):
     magic = None
     delim = None
+    odd = set()
 
     def struct(ts):
         nonlocal magic, delim
@@ -196,12 +203,16 @@ def delim_signature_reader(toks):
                 magic, delim = t[1], t[2]
             elif t[0] == 'F':
                 out.append('F')
+                if len(t) > 2 and t[2] is not None and delim is not None and t[2] != delim:
+                    odd.add(t[2])
             elif t[0] == 'loop':
                 inner = struct(t[1])
                 if inner:
                     out.append(('loop', tuple(inner)))
         return out
     st = struct(toks)
+    if odd:
+        delim = (delim,) + tuple(sorted(odd))
     return magic, delim, tuple(st)
 
 
